@@ -258,7 +258,7 @@ fn lsp_eval(s: &lsp::Session, h: &lsp::History) -> LspEval {
             }
             for p in &s.ops {
                 for t in &p.tags {
-                    if t.starts_with("request.") || t.starts_with("cancelRequest.") || t.starts_with("notification.") || t.starts_with("didChange.") || t.starts_with("didOpen.") || t.starts_with("didClose.") || t.starts_with("disk.") {
+                    if t.starts_with("request.") || t.starts_with("cancelRequest.") || t.starts_with("notification.") || t.starts_with("didChange.") || t.starts_with("didOpen.") || t.starts_with("didClose.") || t.starts_with("disk.") || t.starts_with("didChangeWatchedFiles") {
                         *counters.entry(format!("sent.{t}")).or_insert(0) += 1;
                     }
                 }
